@@ -27,20 +27,18 @@ Proof.
   unfold all_rows. apply in_concat. exists rows. split; eapply nth_error_In; eassumption.
 Qed.
 
-(** (a)+(d) every read outside the de-duplication class returns the part's
-    own octets, or reports an error — and then a backend did fail *)
+(** (a)+(d) EVERY read of EVERY stored part returns the part's own octets, or
+    reports an error — and then a backend did fail *)
 Lemma read_own_octets evs m k row s3on o :
   row_of (run key okey evs) m k = Some row ->
-  classify okey (run key okey evs) row = None ->
   spec_read (r_own row) (read_failed s3on (run key okey evs) row o)
             (rd (read_part s3on (run key okey evs) row o)).
 Proof.
-  intros H C. destruct (row_of_ok _ _ _ _ H) as (R & O).
+  intros H. destruct (row_of_ok _ _ _ _ H) as (R & O).
   set (w := run key okey evs) in *. clearbody w. clear H.
-  unfold row_ok in R. unfold classify in C. unfold read_part, read_failed, rd, spec_read.
+  unfold row_ok in R. unfold read_part, read_failed, rd, spec_read.
   destruct (r_blob row) as [id|]; [|exact R].
-  destruct R as (b & Hb & _). rewrite Hb in *.
-  destruct (form_is_own okey (b_form b) (r_own row)) eqn:F; simpl in C; [|discriminate].
+  destruct R as (b & Hb & _ & F). rewrite Hb in *. unfold form_ok in F.
   destruct (b_form b) as [c|kk]; simpl in F.
   - apply str_eqb_eq in F. exact F.
   - apply str_eqb_eq in F. subst kk.
@@ -69,53 +67,30 @@ Qed.
 (** ... and an error is reported ONLY when the backend failed *)
 Lemma error_only_if_failed evs m k row s3on o :
   row_of (run key okey evs) m k = Some row ->
-  classify okey (run key okey evs) row = None ->
   rd (read_part s3on (run key okey evs) row o) = None ->
   read_failed s3on (run key okey evs) row o = true.
 Proof.
-  intros H C E. pose proof (read_own_octets _ _ _ _ s3on o H C) as S.
+  intros H E. pose proof (read_own_octets _ _ _ _ s3on o H) as S.
   rewrite E in S. exact S.
 Qed.
 
-(** since fix 573e876 the only rows whose blob does not hold their own text
-    are EMPTY parts linked to an S3-form blob *)
-Lemma residual_class_is_empty_s3 evs m k row :
-  row_of (run key okey evs) m k = Some row ->
-  classify okey (run key okey evs) row = Some EmptyPartS3Blob ->
-  r_own row = [] /\
-  exists id b kk, r_blob row = Some id /\ get_blob (w_blobs (run key okey evs)) id = Some b /\ b_form b = FS3 kk.
-Proof.
-  intros H C. destruct (row_of_ok _ _ _ _ H) as (R & _).
-  unfold row_ok in R. unfold classify in C.
-  destruct (r_blob row) as [id|]; [|discriminate].
-  destruct R as (b & Hb & _ & [F|(E & kk & F)]); rewrite Hb in C.
-  - rewrite F in C. discriminate.
-  - split; [exact E|]. exists id, b, kk. repeat split; assumption.
-Qed.
-
-Lemma nonempty_not_classified evs m k row :
-  row_of (run key okey evs) m k = Some row -> r_own row <> [] ->
-  classify okey (run key okey evs) row = None.
-Proof.
-  intros H N. destruct (classify okey (run key okey evs) row) as [[]|] eqn:C; [|reflexivity].
-  destruct (residual_class_is_empty_s3 _ _ _ _ H C) as (E & _). contradiction.
-Qed.
-
-(** (a)+(d) for every NON-EMPTY part, unconditionally *)
-Lemma read_own_octets_nonempty evs m k row s3on o :
-  row_of (run key okey evs) m k = Some row -> r_own row <> [] ->
-  spec_read (r_own row) (read_failed s3on (run key okey evs) row o)
-            (rd (read_part s3on (run key okey evs) row o)).
-Proof. intros H N. apply (read_own_octets _ _ _ _ _ _ H). eapply nonempty_not_classified; eassumption. Qed.
-
 Lemma read_never_foreign evs m k row s3on o :
-  row_of (run key okey evs) m k = Some row -> r_own row <> [] ->
+  row_of (run key okey evs) m k = Some row ->
   rd (read_part s3on (run key okey evs) row o) = Some (r_own row) \/
   rd (read_part s3on (run key okey evs) row o) = None.
 Proof.
-  intros H N. pose proof (read_own_octets_nonempty _ _ _ _ s3on o H N) as S.
+  intros H. pose proof (read_own_octets _ _ _ _ s3on o H) as S.
   destruct (rd (read_part s3on (run key okey evs) row o)) as [s|]; [left|right; reflexivity].
   simpl in S. congruence.
+Qed.
+
+(** every row that points at a blob points at a blob holding its own text *)
+Lemma linked_blob_holds_own evs m k row id :
+  row_of (run key okey evs) m k = Some row -> r_blob row = Some id ->
+  exists b, get_blob (w_blobs (run key okey evs)) id = Some b /\ form_is_own okey (b_form b) (r_own row) = true.
+Proof.
+  intros H B. destruct (row_of_ok _ _ _ _ H) as (R & _). unfold row_ok in R. rewrite B in R.
+  destruct R as (b & Hb & _ & F). exists b. split; assumption.
 Qed.
 
 (** (b) stored once, reference count = number of part rows using the blob *)
